@@ -1,5 +1,5 @@
 (** Refutation lemmas about the PRE-FIX relay model (Model/RelayPreFix.v):
-    what the code did before fix commits 22f571e and 64b5c0c. *)
+    what the code did before fix commits c4b0fba and 1a293bf. *)
 From Coq Require Import List NArith Bool Lia.
 From MM Require Import Model.RelayPreFix.
 Import ListNotations.
